@@ -688,8 +688,56 @@ def judge_strnorm(case):
     return Result(dedupe(viol), nontrivial, ['family=strnorm', 'base=' + base])
 
 
+ORGANIZED = {  # family -> (assertion name, operands that satisfy it, operands that do not)
+    'equal': ('assert_equal', (1, 1), (1, 2)), 'less': ('assert_less', (1, 2), (2, 1)), 'in': ('assert_in', (1, [1, 2]), (3, [1, 2])),
+    'true': ('assert_true', (1,), (0,)), 'is_none': ('assert_is_none', (None,), (0,)), 'raising-relation': ('assert_less', (1, 2), (1, 'a')),
+}
+
+
+def judge_organizer(case):
+    """A run of assertions inside an instructor function decorated with @stop_on_failure / @try_all (or undecorated): each assertion
+    that is reached is silent exactly when it holds; @stop_on_failure skips what follows the first one that does not hold."""
+    import pedal.assertions.runtime as R
+    from pedal.assertions import organizers as O
+    from pedal.core.report import MAIN_REPORT
+    fresh()
+    name, good, bad = ORGANIZED[case['family']]
+    pattern = case['pattern']
+    reached, made = [], []
+
+    def body():
+        for i, holds in enumerate(pattern):
+            reached.append(i)
+            made.append(getattr(R, name)(*(good if holds else bad)))
+    mode = case['mode']
+    fn = {'plain': lambda f: f, 'stop_on_failure': O.stop_on_failure, 'try_all': O.try_all,
+          'try_all_inside_stop': lambda f: O.stop_on_failure(O.try_all(f))}[mode](body)
+    viol = []
+    desc = '%s around %s with outcomes %r' % (mode, name, ['holds' if h else 'fails' for h in pattern])
+    try:
+        fn()
+    except Exception as e:
+        return Result([V('C07|organizer|%s|raises:%s' % (mode, type(e).__name__), '%s: raised %r' % (desc, e))], True, ['organizer=' + mode])
+    stops = mode == 'stop_on_failure'
+    first_bad = pattern.index(False) if False in pattern else None
+    want_reached = list(range(len(pattern))) if (not stops or first_bad is None) else list(range(first_bad + 1))
+    if reached != want_reached:
+        viol.append(V('C07|organizer|%s|assertions-reached' % mode, '%s: assertions %r were evaluated, expected %r' % (desc, reached, want_reached)))
+    failing = [f for f in MAIN_REPORT.feedback if f.label == name]
+    want_failing = sum(1 for i in want_reached if not pattern[i])
+    if len(failing) != want_failing:
+        viol.append(V('C07|organizer|%s|failing-feedback-count' % mode, '%s: %d failing feedback recorded, %d of the reached assertions do not hold'
+                      % (desc, len(failing), want_failing)))
+    if MAIN_REPORT['assertions']['exceptions']:
+        viol.append(V('C07|organizer|%s|mode-not-restored' % mode, '%s: the report is still in stop-on-failure mode afterwards' % desc))
+        MAIN_REPORT['assertions']['exceptions'] = False
+    return Result(dedupe(viol), len(pattern) >= 2 and False in pattern, ['organizer=' + mode])
+
+
 def judge(case):
     kind = case['kind']
+    if kind == 'organizer':
+        return judge_organizer(case)
     if kind == 'strnorm':
         return judge_strnorm(case)
     if kind == 'binary':
@@ -744,6 +792,11 @@ def table(tier):
     for fam in UNARY_FAMILIES:
         for a in vals:
             yield {'kind': 'unary', 'family': fam, 'a': a}
+    for fam in ORGANIZED:
+        for n in range(1, 5):
+            for pattern in itertools.product([True, False], repeat=n):
+                for mode in ('plain', 'stop_on_failure', 'try_all', 'try_all_inside_stop'):
+                    yield {'kind': 'organizer', 'family': fam, 'pattern': list(pattern), 'mode': mode}
     for i in range(len(TYPE_TABLE)):
         yield {'kind': 'type', 'index': i}
     texts = ['hello world', 'Hello, World!', 'hello world\n', 'a\nb', 'b\na', '', 'x', '5.0', 'HELLO   WORLD',
